@@ -64,7 +64,7 @@ def bp_mutation(rng, reg, names, funcs, sizes, SR, via=None):
         return ("EChangeDur", via[0], via[1], names[i], d, False) if via else ("BChangeDur", reg, names[i], d, False)
     if k < 0.5:
         p = rng.choice(PARAMS[funcs[i]])
-        v = rng.choice([0.5, -0.25, 1.5])
+        v = rng.choice([0.5, -0.25, 1.5, 0.5 * (1 + 3e-10), 1.5 + 2e-12])          # also values a hair away from the common ones
         return ("EChangeArg", via[0], via[1], names[i], p, v, False) if via else ("BChangeArg", reg, names[i], p, v, False)
     if k < 0.6:
         return ("BSetSegMarker", reg, names[i], (rng.choice([0, 1 / SR]), rng.choice([1 / SR, 2 / SR, 0])), rng.choice([1, 2]))
